@@ -137,6 +137,20 @@ def run(tier):
         path = os.path.join(d, "base%d.db" % ps)
         base_db(path, ps)
         hdr = open(path, "rb").read(100)
+        # the valid file itself, as SQLite wrote it: refused or misread = the property is broken for this page size (the
+        # patch experiments on it are skipped, the header goes to TLC as it is with what was observed)
+        preq, pout = os.path.join(d, "pre-req.ndjson"), os.path.join(d, "pre-res.ndjson")
+        common.write_ndjson(preq, [{"db": path, "mode": "fresh", "ops": [dict(o_, id=i_) for i_, o_ in enumerate(READ_OPS)]}])
+        rc, txt, _ = common.run([h, "ops", preq, pout], timeout=300)
+        if rc != 0:
+            raise common.harness_failure(txt)
+        pre = summarize(common.read_ndjson(pout))
+        if any(e for e, _, _, _ in pre):
+            events.append({"h": list(hdr), "basePageSize": ps, "outcome": "rejected" if all(e and n == 0 for e, _, n, _ in pre) else "other", "mode": "open"})
+            info.append({"page_size": ps, "off": 16, "val": hdr[16], "mode": "valid-file-as-written", "outcome": events[-1]["outcome"]})
+            parse_reqs.append({"op": "header", "hex": bytes(hdr).hex(), "id": len(parse_reqs)})
+            nexp += 1
+            continue
         plist = patches(tier, rnd, hdr)
         if tier == "quick" and ps != 4096:
             # the full patch set on one size, the page-size / key fields on the others
